@@ -374,7 +374,178 @@ func corpus(p *pool, r *hlib.Rng) []*Scenario {
 	wone("worker-gas-limit", corpusBase(p, 6, 6), g4, tx([]InSpec{in(0)}, []OutSpec{out(5, p.extRegion[0])}), tx([]InSpec{in(1)}, []OutSpec{out(5, fa())}))
 	wone("worker-locked", lb, dc, tx([]InSpec{in(0)}, []OutSpec{out(5, fa())}))
 	wone("worker-quai-owned-entry", qb, dc, tx([]InSpec{{RefTx: -1, Hash: hashN(1), Key: nKeys}}, []OutSpec{out(5, fa())}))
+	cs = append(cs, poolCorpus(p, r)...)
 	return cs
+}
+
+// poolCorpus: the pool's senders cache in the authorisation path.  A hit makes StateProcessor.Process call
+// ProcessQiTx with checkSig=false, so an entry may exist only for a transaction whose signature was verified.
+// Gossip phases (transactions handed to the real pool; Same = the identical signed transaction again) alternate
+// with processed blocks whose checkSig comes from the real cache.  F = a spend carrying the OWNER's public key
+// (ownership test passes) signed by somebody else / over another digest / by a strict subset of the carried keys.
+func poolCorpus(p *pool, r *hlib.Rng) []*Scenario {
+	var cs []*Scenario
+	fa := func() []byte { return p.freshQi(r) }
+	dc := defaultCtx()
+	tx := func(sign string, ins []InSpec, dens ...uint8) TxSpec {
+		var os []OutSpec
+		for _, d := range dens {
+			os = append(os, out(d, fa()))
+		}
+		return TxSpec{Ins: ins, Outs: os, CheckSig: true, Sign: sign, Note: "sign=" + sign}
+	}
+	gsp := func(txs ...TxSpec) BlockSpec { return BlockSpec{Ctx: dc, Txs: txs, Gossip: true} }
+	blk := func(txs ...TxSpec) BlockSpec { return BlockSpec{Ctx: dc, Txs: txs} }
+	same := func(i int) TxSpec { return TxSpec{Same: i, Sign: "ok"} }
+	via := func(t TxSpec, v string) TxSpec { t.Via = v; return t }
+	bat := func(t TxSpec, b int) TxSpec { t.Batch = b; return t }
+	pone := func(name string, base []UtxoSpec, blocks ...BlockSpec) {
+		cs = append(cs, &Scenario{Kind: "pool", Name: name, Tracks: true, Keys: p.keys, Base: base, Blocks: blocks})
+	}
+	b1, b2, b3 := corpusBase(p, 6), corpusBase(p, 6, 6), corpusBase(p, 6, 6, 6)
+	// the legitimate use of the cache: verified by the pool, not verified again in the block
+	pone("pool-valid-then-block", b1, gsp(tx("ok", []InSpec{in(0)}, 5, 4)), blk(same(1)))
+	pone("pool-valid-musig-then-block", b2, gsp(tx("ok", []InSpec{in(0), in(1)}, 6, 5)), blk(same(1)))
+	// rejected by the pool for its signature, then the identical transaction inside a block; every entry point
+	for _, v := range []string{"", "sync", "locals", "reorg"} {
+		for _, sg := range []string{"other", "bad"} {
+			pone(fmt.Sprintf("pool-forged-%s-via-%q-then-block", sg, v), b1, gsp(via(tx(sg, []InSpec{in(0)}, 5, 4), v)), blk(same(1)))
+		}
+	}
+	pone("pool-valid-via-reorg-then-block", b1, gsp(via(tx("ok", []InSpec{in(0)}, 5, 4), "reorg")), blk(same(1)))
+	pone("pool-forged-musig-drop-last-then-block", b2, gsp(tx("drop-last", []InSpec{in(0), in(1)}, 6, 5)), blk(same(1)))
+	pone("pool-forged-musig-drop-first-then-block", b3, gsp(tx("drop-first", []InSpec{in(0), in(1), in(2)}, 6, 6, 5)), blk(same(1)))
+	// seen twice / three times (a copy is answered from what the first sight left behind)
+	pone("pool-forged-gossiped-twice-then-block", b1, gsp(tx("other", []InSpec{in(0)}, 5, 4)), gsp(same(1)), blk(same(1)))
+	pone("pool-forged-gossiped-thrice-one-phase-then-block", b1, gsp(tx("other", []InSpec{in(0)}, 5, 4), same(1), via(same(1), "sync")), blk(same(1)))
+	// orders: forged then the owner's valid spend of the same outpoint (another hash), and the other way round
+	pone("pool-forged-then-valid-twin-block-carries-forged", b1, gsp(tx("other", []InSpec{in(0)}, 5, 4)), gsp(tx("ok", []InSpec{in(0)}, 5, 4)), blk(same(1)))
+	pone("pool-forged-then-valid-twin-block-carries-valid", b1, gsp(tx("other", []InSpec{in(0)}, 5, 4)), gsp(tx("ok", []InSpec{in(0)}, 5, 4)), blk(same(2)))
+	pone("pool-valid-then-forged-twin-block-carries-forged", b1, gsp(tx("ok", []InSpec{in(0)}, 5, 4)), gsp(tx("bad", []InSpec{in(0)}, 5, 3)), blk(same(2)))
+	pone("pool-valid-gossiped-forged-never-gossiped", b1, gsp(tx("ok", []InSpec{in(0)}, 5, 4)), blk(tx("other", []InSpec{in(0)}, 5, 3)), blk(same(1)))
+	// one call carrying valid and forged transactions
+	pone("pool-forged-inside-a-batch", b3, gsp(bat(tx("ok", []InSpec{in(0)}, 5), 1), bat(tx("other", []InSpec{in(1)}, 5), 1), bat(tx("ok", []InSpec{in(2)}, 5), 1)),
+		blk(same(1), same(2), same(3)))
+	pone("pool-forged-inside-a-batch-block-carries-forged-only", b3, gsp(bat(tx("ok", []InSpec{in(0)}, 5), 1), bat(tx("bad", []InSpec{in(1)}, 5), 1)), blk(same(2)))
+	// refused by the pool for another reason first (inputs / outputs), signature never looked at
+	fk := func(i, key int) InSpec { return InSpec{RefTx: -1, Hash: hashN(byte(i + 1)), Index: 0, Key: key} }
+	pone("pool-wrong-key-signed-by-carried-key-then-block", b2, gsp(tx("ok", []InSpec{fk(1, 0)}, 5)), blk(same(1)))
+	pone("pool-wrong-key-forged-then-block", b2, gsp(tx("other", []InSpec{fk(1, 0)}, 5)), blk(same(1)))
+	fo := tx("other", []InSpec{in(0)}, 15)
+	pone("pool-forged-and-bad-output-then-block", b1, gsp(fo), blk(same(1)))
+	fz := tx("other", []InSpec{in(0)}, 6)
+	pone("pool-forged-and-zero-fee-then-block", b1, gsp(fz), blk(same(1)))
+	// inputs unknown to the pool, forged
+	cr := TxSpec{Ins: []InSpec{in(0)}, Outs: []OutSpec{out(5, p.ki[1].addr), out(4, fa())}, CheckSig: true, Sign: "ok"}
+	pone("pool-forged-unknown-outpoint-then-block", b1, gsp(tx("other", []InSpec{{RefTx: -1, Hash: hashN(77), Index: 0, Key: 0}}, 4)), blk(same(1)))
+	// gossip between blocks: the pool validates against the database after block 1
+	fu2 := TxSpec{Ins: []InSpec{{RefTx: 0, Index: 0, Key: 1}}, Outs: []OutSpec{out(4, fa()), out(4, fa())}, CheckSig: true, Sign: "other"}
+	vu2 := TxSpec{Ins: []InSpec{{RefTx: 0, Index: 0, Key: 1}}, Outs: []OutSpec{out(4, fa()), out(3, fa())}, CheckSig: true, Sign: "ok"}
+	pone("pool-block-then-forged-spend-of-its-output-then-block", b1, blk(cr), gsp(fu2, vu2), blk(same(2)))
+	pone("pool-block-then-valid-spend-of-its-output-then-block", b1, blk(cr), gsp(fu2, vu2), blk(same(3)))
+	// the forged transaction next to an unrelated valid one, and after an unrelated accepted block
+	pone("pool-forged-second-in-block", b2, gsp(tx("other", []InSpec{in(1)}, 5, 4), tx("ok", []InSpec{in(0)}, 5)), blk(same(2), same(1)))
+	pone("pool-forged-in-second-block", b2, gsp(tx("other", []InSpec{in(1)}, 5, 4), tx("ok", []InSpec{in(0)}, 5)), blk(same(2)), blk(same(1)))
+	// a gossiped valid transaction and a forged re-spend of the same outpoint in one block
+	pone("pool-valid-cached-plus-forged-respend-in-block", b1, gsp(tx("ok", []InSpec{in(0)}, 5, 4)), blk(same(1), tx("other", []InSpec{in(0)}, 5, 3)))
+	return cs
+}
+
+// poolify turns a processing scenario into a pool scenario: before each block some of its transactions are
+// gossiped to the pool -- as they are, or as a twin that carries the same keys but is not signed by them -- and the
+// block then carries the gossiped object (Same), the twin, or the original.
+func poolify(r *hlib.Rng, s *Scenario, rep *hlib.Report) *Scenario {
+	ns := &Scenario{Kind: "pool", Name: s.Name, Tracks: true, Keys: s.Keys, Base: s.Base}
+	ctx0 := s.Blocks[0].Ctx
+	remap := map[int]int{}
+	old, cur := 0, 0
+	vias := []string{"", "", "", "sync", "locals", "reorg", "reorg"}
+	forge := []string{"other", "bad", "drop-last", "drop-first"}
+	for _, b := range s.Blocks {
+		g := BlockSpec{Ctx: ctx0, Gossip: true}
+		nb := BlockSpec{Ctx: b.Ctx}
+		batch := 0
+		if r.Chance(40) {
+			batch = 1
+		}
+		blockStart := old
+		for _, t := range b.Txs {
+			t.CheckSig = true
+			mode := r.Pick(4, 5, 3, 2, 2)
+			for _, in := range t.Ins {
+				if in.RefTx >= blockStart {
+					mode = 0 // spends an output created in this very block: cannot be built before its creator
+				}
+			}
+			switch mode {
+			case 0: // not gossiped
+				nb.Txs = append(nb.Txs, t)
+				rep.Count("poolify:not gossiped")
+			case 1: // gossiped as it is, the block carries the same object
+				t.Via, t.Batch = vias[r.Intn(len(vias))], batch
+				g.Txs = append(g.Txs, t)
+				nb.Txs = append(nb.Txs, TxSpec{Same: cur + len(g.Txs), Sign: "ok", Note: t.Note})
+				rep.Count("poolify:gossiped, block carries it")
+			case 2: // a twin not signed by the carried keys is gossiped and carried by the block
+				t.Sign, t.Note = forge[r.Intn(len(forge))], "forged-twin"
+				t.Via, t.Batch = vias[r.Intn(len(vias))], batch
+				g.Txs = append(g.Txs, t)
+				if r.Chance(30) {
+					g.Txs = append(g.Txs, TxSpec{Same: cur + len(g.Txs), Sign: "ok", Via: vias[r.Intn(len(vias))]})
+				}
+				nb.Txs = append(nb.Txs, TxSpec{Same: cur + len(g.Txs), Sign: "ok", Note: "forged-twin"})
+				rep.Count("poolify:forged twin gossiped, block carries it")
+			case 3: // the forged twin and the original are gossiped (either order), the block carries the twin
+				f := t
+				f.Sign, f.Note = forge[r.Intn(len(forge))], "forged-twin"
+				f.Via, f.Batch = vias[r.Intn(len(vias))], batch
+				t.Via, t.Batch = vias[r.Intn(len(vias))], batch
+				fi := 0
+				if r.Chance(50) {
+					g.Txs = append(g.Txs, f, t)
+					fi = cur + len(g.Txs) - 1
+				} else {
+					g.Txs = append(g.Txs, t, f)
+					fi = cur + len(g.Txs)
+				}
+				nb.Txs = append(nb.Txs, TxSpec{Same: fi, Sign: "ok", Note: "forged-twin"})
+				rep.Count("poolify:forged twin and original gossiped, block carries the twin")
+			default: // the original is gossiped, the block carries a forged twin the pool never saw
+				f := t
+				f.Sign, f.Note = forge[r.Intn(len(forge))], "forged-twin"
+				t.Via, t.Batch = vias[r.Intn(len(vias))], batch
+				g.Txs = append(g.Txs, t)
+				nb.Txs = append(nb.Txs, f)
+				rep.Count("poolify:original gossiped, block carries a forged twin")
+			}
+		}
+		if len(g.Txs) > 0 {
+			ns.Blocks = append(ns.Blocks, g)
+			cur += len(g.Txs)
+		}
+		for range b.Txs {
+			remap[old] = cur
+			old++
+			cur++
+		}
+		ns.Blocks = append(ns.Blocks, nb)
+	}
+	for bi := range ns.Blocks {
+		for ti := range ns.Blocks[bi].Txs {
+			t := &ns.Blocks[bi].Txs[ti]
+			if t.Same > 0 {
+				continue
+			}
+			ins := append([]InSpec{}, t.Ins...)
+			for ii := range ins {
+				if ins[ii].RefTx >= 0 {
+					ins[ii].RefTx = remap[ins[ii].RefTx]
+				}
+			}
+			t.Ins = ins
+		}
+	}
+	return ns
 }
 
 // floorBaseFee sets the base fee of block 0 so that a fee of feeQits is exactly at the floor (+delta above it).
